@@ -12,7 +12,7 @@ open Blossom Finset Lin
 variable {K : Type} [Field K] [LinearOrder K] [IsStrictOrderedRing K]
 
 /-- the Cox–de Boor functions of a non-decreasing knot function are non-negative -/
-theorem cdb_nonneg (U : ℕ → K) (hm : Monotone U) (u : K) : ∀ (p i : ℕ), 0 ≤ cdb U p i u := by
+theorem cdb_nonneg_all (U : ℕ → K) (hm : Monotone U) (u : K) : ∀ (p i : ℕ), 0 ≤ cdb U p i u := by
   intro p
   induction p with
   | zero =>
@@ -65,7 +65,7 @@ theorem cdb_pos (U : ℕ → K) (hm : Monotone U) (u : K) : ∀ (p i : ℕ),
       have t2 : 0 ≤ (U (i + p + 2) - u) / (U (i + p + 2) - U (i + 1)) * cdb U p (i + 1) u := by
         have : U (i + 1) ≤ U (i + p + 2) := hm (by omega)
         by_cases hu : u ≤ U (i + p + 2)
-        · exact mul_nonneg (div_nonneg (by linarith) (by linarith)) (cdb_nonneg U hm u p (i+1))
+        · exact mul_nonneg (div_nonneg (by linarith) (by linarith)) (cdb_nonneg_all U hm u p (i+1))
         · linarith
       linarith
     · -- the second term is positive
@@ -78,7 +78,7 @@ theorem cdb_pos (U : ℕ → K) (hm : Monotone U) (u : K) : ∀ (p i : ℕ),
           (ih (i + 1) (le_trans hle c') (by rw [e3]; exact h2) (Or.inr (by rw [e4]; exact c')))
       have t1 : 0 ≤ (u - U i) / (U (i + p + 1) - U i) * cdb U p i u := by
         have : U i ≤ U (i + p + 1) := hm (by omega)
-        exact mul_nonneg (div_nonneg (by linarith) (by linarith)) (cdb_nonneg U hm u p i)
+        exact mul_nonneg (div_nonneg (by linarith) (by linarith)) (cdb_nonneg_all U hm u p i)
       linarith
 
 /-- an entry of the collocation matrix is the Cox–de Boor value `N_{j,p}(ū_i)` when `ū_i` lies in the half-open domain -/
